@@ -269,7 +269,6 @@ def judge_access(lay, handler, rootnode, text, stats=None):
     found = False
     enclosing = False
     vt = cdecl.value_type(lay, v)
-    pn = pointee_node(lay, v)
     for c2, t2 in sorted(back, key=lambda x: x[0]):
         try:
             v2 = cdecl.eval_text(lay, c2, rootnode)
@@ -301,8 +300,9 @@ def judge_access(lay, handler, rootnode, text, stats=None):
         if cdecl.type_equal(lay, cdecl.value_type(lay, v2), vt):
             found = True
         elif vt[0] == "ptr":
+            # the address of a leading member may come back as the enclosing object it is the start of
             pn2 = pointee_node(lay, v2)
-            if pn2 is not None and pn2["T"][0] in ("agg", "arr") and (pn is None or pn2["size"] >= pn["size"]):
+            if pn2 is not None and any(cdecl.type_equal(lay, n["T"], pn2["T"]) for n in v.enclosing_nodes()):
                 enclosing = True
     if not found and not enclosing:
         return ("roundtrip:type", "%s : %s -> %s -> %s" % (text, describe(v), es,
